@@ -1355,7 +1355,8 @@ _jobs_begintuple = jobs
 
 
 def jobs(tier):
-    q = [(('x', 'y'), 'y', 0, 0), (('x', 'y'), 'x', 2, 2), (('x', 'y'), 'z', 1, 2), ((), 'a', 0, 0), (('a',), 'b', 1, 0)]
+    # (('x', 'y'), 'x', 1, ..): the key sits *before* the cursor - the search has to wrap around (seed C14_H stopped at the end of the key list)
+    q = [(('x', 'y'), 'y', 0, 0), (('x', 'y'), 'x', 2, 2), (('x', 'y'), 'x', 1, 2), (('x', 'y'), 'z', 1, 2), ((), 'a', 0, 0), (('a',), 'b', 1, 0)]
     if tier != 'quick':
         q += [(('a', 'b', 'c'), 'a', 1, 1), (('a', 'b', 'c'), 'c', 3, 0), (('a', 'b', 'c'), 'd', 2, 3), (('ab', 'a'), 'a', 0, 1), ((), 'k', 0, 2)]
     return _jobs_begintuple(tier) + [(h_record_field, a, 900) for a in q]
